@@ -17,6 +17,11 @@
 #endif
 static char g_file[FLMAX + 1]; static size_t g_fl, g_pos; static FILE * g_stream; static bool g_open_fails; static unsigned g_opened, g_closed;
 FILE * fopen(const char * name, const char * mode) { if (g_open_fails) { return NULL; } g_opened++; g_pos = 0; return g_stream; }
+#ifdef STDIN      /* the same contract for stdin_buffer(): standard input is the stream, already open; "cat f | mmd" must see what "mmd f" sees (C06) */
+#define READ() stdin_buffer()
+#else
+#define READ() scan_file(name)
+#endif
 size_t fread(void * ptr, size_t size, size_t nmemb, FILE * stream) {
 	ASSERT(stream == g_stream && g_opened == 1 && g_closed == 0, "fread: on the open stream");
 	ASSERT(size == 1 && __CPROVER_w_ok(ptr, nmemb), "fread: the chunk buffer has room for the bytes asked for");
@@ -35,7 +40,10 @@ void h_scan_file(void) {
 	g_file[FLMAX] = 0;
 	{ IN(bool, f); g_open_fails = f; }
 	char name[2] = "f";
-	DString * r = scan_file(name);
+#ifdef STDIN
+	g_open_fails = false; stdin = g_stream; g_opened = 1;
+#endif
+	DString * r = READ(); (void)name;
 	if (g_open_fails) {
 		ASSERT(r == NULL && g_closed == 0, "C13: a file that cannot be opened yields NULL");
 	} else {
